@@ -357,6 +357,12 @@ SELECTION_ATOMS = (
     ("n", "NoUnusedVariablesChecker", "$z: Int"), ("echo(x: $a)", "UniqueVariableNamesChecker", "$a: Int, $a: Int"),
     ("echo(x: $i)", "ValuesOfCorrectTypeChecker", "$i: Int = \"s\""),
     ("n", None, ""), ("echo(x: $i)", None, "$i: Int"), ("me { name ... on User { age } }", None, ""), ("echo(x: $i) @include(if: $b)", None, "$i: Int = 3, $b: Boolean!"),
+    # same response key in mutually exclusive typed branches, one side inside a type-less / directive-only inline fragment (which inherits the branch's type)
+    ("pets { ... on Dog { ... { k: barks } } ... on Cat { k: lives } }", "OverlappingFieldsCanBeMergedChecker", ""),
+    ("pets { ... on Dog { ... @include(if: true) { k: barks } } ... on Cat { ... { k: lives } } }", "OverlappingFieldsCanBeMergedChecker", ""),
+    ("pets { ... on Dog { ... { k: name ... @skip(if: false) { j: id } } } ... on Cat { k: name j: name } }", "OverlappingFieldsCanBeMergedChecker", ""),
+    ("pets { ... on Dog { ... { k: name o: owner { name } } } ... on Cat { ... @include(if: true) { k: name o: owner { name } } } }", None, ""),
+    ("animals { ... on Dog { ... { s: sound(times: 1) } } ... on Cat { s: sound(times: 2) } }", None, ""),
 )
 
 
